@@ -1,18 +1,18 @@
 package worlds
 
 import (
-	"strings"
-	"sync"
-	_ "unsafe"
-	"runtime"
-	"runtime/pprof"
 	"bufio"
 	"encoding/json"
 	"flag"
 	"fmt"
 	"os"
+	"runtime"
+	"runtime/pprof"
+	"strings"
+	"sync"
 	"testing"
 	"time"
+	_ "unsafe"
 )
 
 var (
@@ -36,12 +36,12 @@ var (
 
 // HangRecord is written next to the output when the watchdog fires.
 type HangRecord struct {
-	Hang  bool     `json:"hang"`
-	Spec  RunSpec  `json:"spec"`
-	Desc  any      `json:"desc"`
-	Site  string   `json:"site"`
-	Stack string   `json:"stack"`
-	WallS float64  `json:"wall_s"`
+	Hang  bool    `json:"hang"`
+	Spec  RunSpec `json:"spec"`
+	Desc  any     `json:"desc"`
+	Site  string  `json:"site"`
+	Stack string  `json:"stack"`
+	WallS float64 `json:"wall_s"`
 }
 
 var watchdogOnce sync.Once
@@ -205,13 +205,13 @@ func splitComma(s string) []string {
 
 // ReplayFile is the on-disk form of a failing run.
 type ReplayFile struct {
-	Spec      RunSpec     `json:"spec"`
-	Class     string      `json:"class"`
-	Violation Violation   `json:"violation"`
-	Trace     string      `json:"trace"`
-	Desc      any         `json:"desc,omitempty"`
-	Log       []string    `json:"log,omitempty"`
-	Note      string      `json:"note,omitempty"`
+	Spec      RunSpec   `json:"spec"`
+	Class     string    `json:"class"`
+	Violation Violation `json:"violation"`
+	Trace     string    `json:"trace"`
+	Desc      any       `json:"desc,omitempty"`
+	Log       []string  `json:"log,omitempty"`
+	Note      string    `json:"note,omitempty"`
 }
 
 func replayMain(t *testing.T) {
